@@ -17,6 +17,20 @@ int verif_alloc_should_fail(void)
 	return 0;
 }
 
+/* used through model/alloc_macros.h: the allocation itself stays at the call site */
+void *verif_track(void *p)
+{
+	__CPROVER_assume(p != 0);
+	if (verif_alloc_should_fail()) { free(p); return 0; }
+	verif_live_blocks++;
+	return p;
+}
+void verif_untrack_free(void *p)
+{
+	verif_live_blocks--;
+	free(p);
+}
+
 void *cjet_malloc(size_t size)
 {
 	if (verif_alloc_should_fail()) return 0;
